@@ -72,6 +72,9 @@ type c26change struct {
 	ids      []b6.FeatureID // IDs a successful application modifies (by construction); nil = not asserted
 	mustFail bool           // applying the change fails by construction (a tag is added to a feature that does not exist)
 	mentions []b6.FeatureID // extra IDs to probe
+	// post, if set, is what a caller who was told "applied" can rely on, whatever the twin says:
+	// it returns "" if it holds in w and a description otherwise
+	post func(w b6.World) string
 }
 
 func c26idSet(ids []b6.FeatureID) string {
@@ -118,6 +121,21 @@ func c26collection(features ...string) string {
 
 // c26gen draws one change request. present/absent are feature IDs that exist /
 // do not exist in the world the request is evaluated against.
+// c26addTag: add-tag on a feature that exists, with what the caller can rely on afterwards.
+func c26addTag(id b6.FeatureID, k, v string) c26change {
+	return c26change{kind: "add-tag:present", expr: xCall("add-tag", xID(id), xTag(k, v)), ids: []b6.FeatureID{id},
+		post: func(w b6.World) string {
+			f := w.FindFeatureByID(id)
+			if f == nil {
+				return fmt.Sprintf("%s is not in the world", id)
+			}
+			if t := f.Get(k); !t.IsValid() || t.Value.String() != v {
+				return fmt.Sprintf("%s has %s=%q, the tag added was %s=%q", id, k, t.Value, k, v)
+			}
+			return ""
+		}}
+}
+
 func c26gen(r *core.R, c *core.Ctx, present []b6.FeatureID, depth int) c26change {
 	uniq := func() string { return fmt.Sprintf("v%d", r.Intn(1000000)) }
 	keys := []string{"#amenity", "name", "#highway", "building:levels", "#verif", "verif:plain"}
@@ -147,14 +165,23 @@ func c26gen(r *core.R, c *core.Ctx, present []b6.FeatureID, depth int) c26change
 	case 0: // add-tag, present feature
 		id := core.Pick(r, present)
 		c.Count("gen_add_tag_present")
-		return c26change{kind: "add-tag:present", expr: xCall("add-tag", xID(id), xTag(core.Pick(r, keys), uniq())), ids: []b6.FeatureID{id}}
+		return c26addTag(id, core.Pick(r, keys), uniq())
 	case 1: // add-tag, absent feature
 		id := core.Pick(r, absentIDs)
 		c.Count("gen_add_tag_absent")
 		return c26change{kind: "add-tag:absent", expr: xCall("add-tag", xID(id), xTag(core.Pick(r, keys), uniq())), mentions: []b6.FeatureID{id}, mustFail: true}
 	case 2: // remove-tag, present feature (key present or not)
 		id := core.Pick(r, present)
-		return c26change{kind: "remove-tag:present", expr: xCall("remove-tag", xID(id), xStr(core.Pick(r, keys))), ids: []b6.FeatureID{id}}
+		k := core.Pick(r, keys)
+		return c26change{kind: "remove-tag:present", expr: xCall("remove-tag", xID(id), xStr(k)), ids: []b6.FeatureID{id},
+			post: func(w b6.World) string {
+				if f := w.FindFeatureByID(id); f == nil {
+					return fmt.Sprintf("%s is not in the world", id)
+				} else if t := f.Get(k); t.IsValid() {
+					return fmt.Sprintf("%s still has %s=%q", id, k, t.Value)
+				}
+				return ""
+			}}
 	case 3: // remove-tag, absent feature
 		id := core.Pick(r, absentIDs)
 		c.Count("gen_remove_tag_absent")
@@ -316,14 +343,14 @@ func init() {
 		ID:        "C26",
 		Title:     "Callers are told whether their change was applied",
 		Technique: "differential twin world: the change value applied directly to an identical world decides failed?/modified IDs/world afterwards",
-		Rule: "case = (world kind: overlay over small basic | overlay over empty | plain basic; 0-2 earlier edits; one change request drawn from add-tag/remove-tag " +
+		Rule: "case = (world kind: overlay over small basic | overlay over empty | plain basic; 0-3 earlier edits (tag edits and points added again as they are); one change request drawn from add-tag/remove-tag " +
 			"on present and absent features, add-tags/remove-tags with an absent feature among them, add-point/add-relation/add-collection with valid, replacing and invalid IDs, " +
 			"import-geojson of point/line/1-point line/polygon/collections, merge-changes of 1-3 such parts; path: grpc service.Evaluate | Evaluator.EvaluateExpression | Evaluator.EvaluateProto); " +
 			"distinct = distinct (world kind, earlier edits, request expression, path); non-trivial = the request evaluated to a change value on the twin",
 		Assumptions: []string{"ingest.Change.Apply on the twin world is the reference for whether applying fails and for the world afterwards",
 			"api.Evaluate on the twin yields the same change value as the evaluation inside the code under test"},
 		Quick: 3000, Thorough: 600000,
-		Required: []string{"must_fail_by_construction", "twin_failed", "twin_ok", "path_grpc", "path_evaluator", "failed_and_reported", "ok_and_ids_checked", "merge_failed"},
+		Required: []string{"must_fail_by_construction", "twin_failed", "twin_ok", "path_grpc", "path_evaluator", "failed_and_reported", "ok_and_ids_checked", "ok_and_postcondition_checked", "pre_readd_point", "directed_edit_readd_edit", "merge_failed"},
 		Run: func(c *core.Ctx) {
 			r := c.R
 			worldKind := r.Intn(3)
@@ -359,7 +386,26 @@ func init() {
 			}
 			// earlier edits, applied identically and directly to both worlds
 			var script []string
-			for i, n := 0, r.Intn(3); i < n; i++ {
+			for i, n := 0, r.Intn(4); i < n; i++ {
+				if r.Chance(0.3) {
+					// a feature of the world added again as it is (as add-point with the same id and place does)
+					var again []ingest.Feature
+					for _, f := range fSmallFeatures()[:8] {
+						if f.FeatureID().Type == b6.FeatureTypePoint {
+							again = append(again, f)
+						}
+					}
+					f := core.Pick(r, again)
+					if wa.HasFeatureWithID(f.FeatureID()) {
+						ea, eb := wa.AddFeature(f.Clone()), wb.AddFeature(f.Clone())
+						if (ea == nil) != (eb == nil) {
+							panic("harness: twin worlds diverged during setup")
+						}
+						script = append(script, fmt.Sprintf("pre:re-add %s", f.FeatureID()))
+						c.Count("pre_readd_point")
+					}
+					continue
+				}
 				id := core.Pick(r, present)
 				tag := fStrTag(core.Pick(r, []string{"#amenity", "name", "verif:plain"}), fmt.Sprintf("e%d", i))
 				ea, eb := wa.AddTag(id, tag), wb.AddTag(id, tag)
@@ -369,6 +415,33 @@ func init() {
 				script = append(script, fmt.Sprintf("pre:add-tag %s %s", id, tag))
 			}
 			ch := c26gen(r, c, present, 0)
+			if c.Index%6 == 4 && worldKind != 2 {
+				// directed history: a tag edit on a feature, then a feature it refers to is added
+				// again (which pulls the referrer into the overlay), then the request edits the
+				// referrer's tags once more
+				x := core.Pick(r, []struct {
+					id  b6.FeatureID
+					dep uint64
+				}{{fPathID(1), 1}, {fPathID(1), 2}, {fPathID(3), 7}, {fPathID(2), 4}})
+				if wa.HasFeatureWithID(x.id) && wa.HasFeatureWithID(fPointID(x.dep)) {
+					k1 := core.Pick(r, []string{"name", "verif:plain", "#amenity"})
+					tag := fStrTag(k1, "h0")
+					ea, eb := wa.AddTag(x.id, tag), wb.AddTag(x.id, tag)
+					var dep ingest.Feature
+					for _, f := range fSmallFeatures() {
+						if f.FeatureID() == fPointID(x.dep) {
+							dep = f
+						}
+					}
+					fa, fb := wa.AddFeature(dep.Clone()), wb.AddFeature(dep.Clone())
+					if (ea == nil) != (eb == nil) || (fa == nil) != (fb == nil) {
+						panic("harness: twin worlds diverged during setup")
+					}
+					script = append(script, fmt.Sprintf("pre:add-tag %s %s", x.id, tag), fmt.Sprintf("pre:re-add %s", dep.FeatureID()))
+					ch = c26addTag(x.id, core.Pick(r, []string{"name", "verif:plain", "building:levels", "#highway"}), fmt.Sprintf("h%d", r.Intn(1000)))
+					c.Count("directed_edit_readd_edit")
+				}
+			}
 			path := r.Intn(3)
 			pathName := []string{"grpc", "EvaluateExpression", "EvaluateProto"}[path]
 			desc := "(unprintable)"
@@ -507,6 +580,12 @@ func init() {
 				got := c26idSet(append(append([]b6.FeatureID{}, gotKeys...), gotValues...))
 				if want := c26idSet(twinIDs); got != want {
 					c.Violate(pathName+":wrong-ids", witness, "%s: %s returned the IDs {%s}, the twin application modified {%s}", desc, pathName, got, want)
+				}
+				if ch.post != nil {
+					c.Count("ok_and_postcondition_checked")
+					if d := ch.post(wa); d != "" {
+						c.Violate(pathName+":reported-applied-but-not-in-the-world:"+ch.kind, witness, "%s: %s reported success, but afterwards %s", desc, pathName, d)
+					}
 				}
 				if ch.ids != nil {
 					c.Count("ok_and_ids_checked")
